@@ -4,7 +4,10 @@
 // state machine + the REAL walstore on the simulated disk of harness/walworld. Broadcasters, listeners,
 // commit listener, application and validator set are simulated. Every effect of the driver (WAL append, WAL
 // flush, each broadcast, commit callback, WAL prune) is a seam call that parks until the harness releases
-// it, so effects are numbered and the process can be killed at any of them.
+// it, so effects are numbered and the process can be stopped at any of them: killed (the process image is
+// gone at once, buffered WAL entries die with it), or stopped in one of the ways in which Driver.Run returns by
+// itself and its deferred Close of the store runs - the commit listener reports a failure, the driver's context
+// is cancelled (graceful shutdown), a WAL flush meets an I/O error.
 package driverworld
 
 import (
@@ -176,9 +179,21 @@ const (
 
 var efName = [...]string{"wal_append", "wal_flush", "wal_prune", "bcast_proposal", "bcast_prevote", "bcast_precommit", "commit"}
 
+// ways in which the validator process stops at a stop point
+const (
+	stopKill            = iota // the process image is gone at once; nothing runs any more
+	stopListenerFailure        // commit effects only: OnCommit returns false (the block could not be persisted)
+	stopGracefulCancel         // the driver's context is cancelled while the driver is parked at the effect / idle
+	stopWALIOError             // flush effects only: one disk operation of the flush fails
+)
+
+var stopName = [...]string{"kill", "listener_failure", "graceful_cancel", "wal_io_error"}
+
 type verdict struct {
-	dead   bool // the process is dead: do nothing, fail
-	during bool // wal_flush only: perform the flush, but the process dies inside it
+	dead    bool // the process is dead: do nothing, fail
+	during  bool // wal_flush only: perform the flush, but the process dies inside it
+	fail    bool // commit only: the listener reports failure (OnCommit returns false)
+	ioFault bool // wal_flush only: the disk has a fault armed; should it not fire, the process is killed after the flush
 }
 
 type req struct {
@@ -208,6 +223,11 @@ type incarnation struct {
 	pcCh   chan *types.Precommit[H, A]
 	loaded []string // entries handed to the driver by LoadAllEntries
 	loadH  []types.Height
+
+	cancelled bool  // the harness cancelled ctx as the stop request (graceful shutdown)
+	closed    bool  // the driver itself closed the store (Run returned in a live process)
+	closeErr  error // what that Close returned
+	ioNoFire  bool  // the armed disk fault did not fire inside the flush: the process was killed after it instead
 }
 
 func (inc *incarnation) park(r *req) verdict {
@@ -241,6 +261,15 @@ func (s *seamStore) Flush() error {
 	if v.dead {
 		return errDead
 	}
+	if v.ioFault {
+		if err := s.inc.real.Flush(); err != nil {
+			return err
+		}
+		// nothing had to be written, or the flush did not perform the operation the fault was armed for
+		s.inc.ioNoFire = true
+		s.inc.dead = true
+		return errDead
+	}
 	return s.inc.real.Flush()
 }
 
@@ -267,9 +296,18 @@ func (s *seamStore) LoadAllEntries() iter.Seq2[wal.Entry[V, H, A], error] {
 	}
 }
 
-// Close: the driver closes the store when Run returns. A dead process closes nothing; a live one is
-// closed by the harness itself (quietly) when the execution ends.
-func (s *seamStore) Close() error { return nil }
+// Close: the driver closes the store when Run returns. A dead process (killed, or ended by the harness when
+// the execution is over) closes nothing - the harness closes its store quietly after the crash image has been
+// taken. A process that is alive when Run returns (listener failure, graceful shutdown, I/O error) closes the
+// real store: whatever that makes durable is on the disk the validator restarts from.
+func (s *seamStore) Close() error {
+	if s.inc.dead {
+		return nil
+	}
+	s.inc.closed = true
+	s.inc.closeErr = s.inc.real.Close()
+	return s.inc.closeErr
+}
 
 type bcast[M any] struct {
 	inc  *incarnation
@@ -287,7 +325,7 @@ type commitSim struct{ inc *incarnation }
 func (c *commitSim) OnCommit(_ context.Context, h types.Height, v V) bool {
 	vv := v
 	verdict := c.inc.park(&req{kind: efCommit, desc: fmt.Sprintf("commit(h%d v=%s)", h, valStr(&vv)), h: h, id: valStr(&vv), value: &vv})
-	return !verdict.dead
+	return !verdict.dead && !verdict.fail
 }
 func (c *commitSim) Listen() <-chan junosync.CommittedBlock { return nil }
 
@@ -326,11 +364,22 @@ type execution struct {
 	inc  *incarnation
 
 	nEffects   int
-	killAt     int // kill before this effect (1-based); 0 = never
+	killAt     int // stop before this effect (1-based); 0 = never
 	killDuring bool
 	killed     bool
 	killInput  int
 	killEffect string
+	effKinds   []int // per effect: its kind and the input that was being processed
+	effInputs  []int
+
+	// how the process stops at the stop point (stopKill: as the field names say)
+	stopKind     int
+	stopAt       string                // effect kind the stop request met, or "idle"
+	preEffectN   int                   // effects before the stop request
+	runErr       error                 // what Driver.Run returned (stop kinds other than kill)
+	mustHoldLog  bool                  // Run returned by itself and no I/O error was reported at the store's Close
+	failedCommit map[types.Height]bool // commit callbacks that reported failure / were cancelled while stopping
+	dirty        int                   // appends and prunes since the last flush
 
 	curInput   int
 	appends    []appendRec
@@ -423,15 +472,23 @@ func (x *execution) start() {
 	go func() { inc.done <- drv.Run(ctx) }()
 }
 
+// where: first part of the violation keys: application class / role of the execution. The execution that is
+// stopped is "crashed" when it is killed and carries the name of the stop kind otherwise.
 func (x *execution) where() string {
-	return fmt.Sprintf("%s/%s", appName[x.cfg.appMode], x.role)
+	role := x.role
+	if role == "crashed" && x.stopKind != stopKill {
+		role = stopName[x.stopKind]
+	}
+	return fmt.Sprintf("%s/%s", appName[x.cfg.appMode], role)
 }
 
-// stop ends the current incarnation cleanly from the harness' point of view (not a crash of the model).
-func (x *execution) stop() {
+// stop ends the current incarnation cleanly from the harness' point of view (not a crash of the model): the
+// context is cancelled and whatever the driver is parked at fails. hung: Run did not return on that (the driver
+// then is got out of the way by closing its listener channel); the callers on the normal path report it.
+func (x *execution) stop() (hung bool) {
 	inc := x.inc
 	if inc == nil {
-		return
+		return false
 	}
 	inc.dead = true
 	inc.cancel()
@@ -445,11 +502,33 @@ func (x *execution) stop() {
 	if r != nil {
 		r.release <- verdict{dead: true}
 	}
-	<-inc.done
+	synctest.Wait()
+	select {
+	case <-inc.done:
+	default:
+		if r = x.takeParked(); r != nil {
+			// parked at a further seam of a dead process: forceExit lets it fail
+			x.mu.Lock()
+			x.parked = r
+			x.mu.Unlock()
+		} else {
+			hung = true
+		}
+		x.forceExit()
+		return hung
+	}
 	synctest.Wait()
 	x.disk.Quiet = true
 	_ = inc.real.Close()
 	x.inc = nil
+	return false
+}
+
+// stopJudged: stop on the normal path of a run. Run must return when its context is cancelled.
+func (x *execution) stopJudged() {
+	if x.stop() {
+		x.c.Fail("stop_hang", x.where()+"/end_of_execution", "Driver.Run does not return although its context was cancelled while the driver was idle (end of the %s execution)\neffects: %s", x.role, strings.Join(tail(x.effectsLog, 12), " ; "))
+	}
 }
 
 func (x *execution) takeParked() *req {
@@ -481,6 +560,10 @@ func (x *execution) drain() {
 		x.inhand = r
 		x.nEffects++
 		x.effectsLog = append(x.effectsLog, fmt.Sprintf("%d:%s %s", x.nEffects, efName[r.kind], r.desc))
+		if !x.killed {
+			x.effKinds = append(x.effKinds, r.kind)
+			x.effInputs = append(x.effInputs, x.curInput)
+		}
 		if x.killAt == x.nEffects && !x.killed {
 			x.kill(r)
 			return
@@ -517,8 +600,8 @@ func (x *execution) before(r *req) {
 					cls = "volatile_validity"
 					key = efName[r.kind][6:] + "_conflict"
 				}
-				c.Fail(cls, x.where()+"/"+key, "after recovery the validator broadcast %s but before the crash it had broadcast %s for the same height and round\nkilled before effect %d (%s) while processing input %d\neffects: %s",
-					r.desc, old.desc, x.killAt, x.killEffect, x.killInput, strings.Join(tail(x.effectsLog, 30), " ; "))
+				c.Fail(cls, x.where()+"/"+key, "after recovery the validator broadcast %s but before it stopped it had broadcast %s for the same height and round\nstop (%s) at effect %d (%s) while processing input %d\neffects: %s",
+					r.desc, old.desc, stopName[x.stopKind], x.killAt, x.killEffect, x.killInput, strings.Join(tail(x.effectsLog, 30), " ; "))
 			}
 		}
 	case efCommit:
@@ -553,11 +636,16 @@ func (x *execution) after(r *req) {
 			first = false
 		}
 		x.appends = append(x.appends, appendRec{desc: r.desc, h: r.h, input: x.curInput, first: first})
+		x.dirty++
 		if strings.HasPrefix(r.desc, "start(h") && r.h != x.dur.last+1 {
 			// tendermint/process.go:18 hands the driver a POINTER to the machine's height; when the height is
 			// decided inside ProcessStart the record is written with the next height's label
 			x.c.Probe("start_record_mislabelled")
 		}
+	case efPrune:
+		x.dirty++
+	case efFlush:
+		x.dirty = 0
 	case efBcastProposal:
 		k := voteKey{r.kind, r.h, r.r}
 		x.sentProps[k] = r
@@ -662,16 +750,60 @@ func (x *execution) checkDurableCause(r *req) {
 	}
 }
 
-// kill: the process dies before effect r (or inside it, for a flush). Takes the crash image.
+// kill: the process stops at effect r (r == nil: while idle). stopKill: it dies before the effect (or inside it,
+// for a flush); the other kinds: see windDown. Takes the crash image and restarts the validator from it.
 func (x *execution) kill(r *req) {
 	c, t := x.c, x.c.T
 	inc := x.inc
 	x.killed = true
 	x.killInput = x.curInput
 	x.killEffect = "end of inputs"
+	x.stopAt = "idle"
 	if r != nil {
 		x.killEffect = efName[r.kind] + " " + r.desc
+		x.stopAt = efName[r.kind]
 	}
+	x.preEffectN = len(x.effectsLog)
+	if r != nil {
+		x.preEffectN--
+	}
+	// a stop kind that does not exist at this effect is a kill
+	if x.stopKind == stopListenerFailure && (r == nil || r.kind != efCommit) || x.stopKind == stopWALIOError && (r == nil || r.kind != efFlush) {
+		x.stopKind = stopKill
+	}
+	x.inhand = nil
+	var img walworld.Image
+	if x.stopKind != stopKill {
+		x.windDown(r)
+	}
+	if x.stopKind == stopKill && !inc.ioNoFire {
+		inc.dead = true
+		during := r != nil && x.killDuring && r.kind == efFlush
+		if during {
+			var caps []walworld.Image
+			x.disk.AfterOp = func(kind walworld.OpKind, path string, failed bool) {
+				caps = append(caps, x.disk.FullView(walworld.WALDir), x.disk.SyncedView(walworld.WALDir))
+			}
+			r.release <- verdict{during: true}
+			inc.cancel()
+			<-inc.done
+			synctest.Wait()
+			x.disk.AfterOp = nil
+			if len(caps) > 0 {
+				img = caps[t.Draw("during_image", len(caps))]
+				c.Probe("crash_inside_flush")
+			}
+		} else {
+			inc.cancel()
+			if r != nil {
+				r.release <- verdict{dead: true}
+			}
+			<-inc.done
+			synctest.Wait()
+		}
+	}
+	// what the validator had appended and sent when it stopped (the other stop kinds: including what it still
+	// did between the stop request and the return of Run)
 	x.preAppendN = len(x.appends)
 	x.preVotes, x.preProps = map[voteKey]*req{}, map[voteKey]*req{}
 	for k, v := range x.sentVotes {
@@ -679,32 +811,6 @@ func (x *execution) kill(r *req) {
 	}
 	for k, v := range x.sentProps {
 		x.preProps[k] = v
-	}
-	inc.dead = true
-	x.inhand = nil
-	during := r != nil && x.killDuring && r.kind == efFlush
-	var img walworld.Image
-	if during {
-		var caps []walworld.Image
-		x.disk.AfterOp = func(kind walworld.OpKind, path string, failed bool) {
-			caps = append(caps, x.disk.FullView(walworld.WALDir), x.disk.SyncedView(walworld.WALDir))
-		}
-		r.release <- verdict{during: true}
-		inc.cancel()
-		<-inc.done
-		synctest.Wait()
-		x.disk.AfterOp = nil
-		if len(caps) > 0 {
-			img = caps[t.Draw("during_image", len(caps))]
-			c.Probe("crash_inside_flush")
-		}
-	} else {
-		inc.cancel()
-		if r != nil {
-			r.release <- verdict{dead: true}
-		}
-		<-inc.done
-		synctest.Wait()
 	}
 	if img == nil {
 		S, F := x.disk.SyncedView(walworld.WALDir), x.disk.FullView(walworld.WALDir)
@@ -720,7 +826,11 @@ func (x *execution) kill(r *req) {
 	x.disk.Quiet = true
 	_ = inc.real.Close()
 	x.inc = nil
-	c.Fault("crash")
+	if x.stopKind == stopKill {
+		c.Fault("crash")
+	} else {
+		c.Fault("stop." + stopName[x.stopKind])
+	}
 	// restart on the image
 	x.disk = walworld.NewDiskFromImage(walworld.WALDir, img)
 	x.phase = 1
@@ -728,6 +838,161 @@ func (x *execution) kill(r *req) {
 	x.start()
 	x.drain()
 	x.recLoaded, x.recLoadH = x.inc.loaded, x.inc.loadH
+}
+
+// windDown: the stop kinds in which the process is not killed but Driver.Run returns by itself and its deferred
+// Close of the store runs. The stop request meets the driver parked at effect r (nil: idle in its select):
+//   - listener_failure: the commit callback returns false;
+//   - graceful_cancel: the driver's context is cancelled. Seam calls that take the context return: a broadcast
+//     under a cancelled context is sent or not (the real broadcasters select between ctx.Done and their queue:
+//     tape), the commit callback returns false (the real listener selects between ctx.Done and the hand-over;
+//     whether the block was persisted all the same: tape). WAL calls take no context and are carried out;
+//   - wal_io_error: one disk operation of the flush fails (kind and short write: tape).
+//
+// Whatever the driver still does until Run returns is carried out and recorded as done (appends may become
+// durable through Close, messages that were sent were sent), but not judged. Judged: Run returns; no panic.
+func (x *execution) windDown(r *req) {
+	c, t := x.c, x.c.T
+	inc := x.inc
+	x.failedCommit = map[types.Height]bool{}
+	switch x.stopKind {
+	case stopGracefulCancel:
+		inc.cancelled = true
+		inc.cancel()
+		if r == nil {
+			c.Probe("cancel_while_idle")
+		} else {
+			c.Probe("cancel_at_" + efName[r.kind])
+		}
+	case stopWALIOError:
+		kinds := []walworld.OpKind{walworld.OpWrite, walworld.OpSync, walworld.OpCreate, walworld.OpDirSync}
+		k := kinds[t.Draw("io_fault_op", len(kinds))]
+		x.disk.ArmFault(k, 1, t.Draw("io_fault_short", 2) == 1)
+	}
+	first := true
+	for steps := 0; ; steps++ {
+		if r == nil {
+			synctest.Wait()
+			exited := false
+			select {
+			case err := <-inc.done:
+				x.runErr = err
+				exited = true
+			default:
+			}
+			if exited {
+				break
+			}
+			if r = x.takeParked(); r == nil {
+				// every goroutine of the bubble is durably blocked, the driver is at no seam and Run has not returned
+				x.forceExit()
+				c.Fail("stop_hang", x.where()+"/"+x.stopAt, "Driver.Run does not return after the stop request (%s, the driver was at: %s): the driver is blocked outside every seam\neffects: %s",
+					stopName[x.stopKind], x.killEffect, strings.Join(tail(x.effectsLog, 16), " ; "))
+			}
+			x.nEffects++
+			x.effectsLog = append(x.effectsLog, fmt.Sprintf("%d:%s %s (stopping)", x.nEffects, efName[r.kind], r.desc))
+		}
+		x.inhand = r // should the run end now, the clean-up finds the effect the driver is parked at
+		if steps > 400 {
+			c.Broken("driver does not come to an end after the stop request")
+		}
+		v := verdict{}
+		switch r.kind {
+		case efAppend, efPrune:
+			x.after(r)
+		case efFlush:
+			if first && x.stopKind == stopWALIOError {
+				v.ioFault = true
+			} else {
+				x.after(r)
+			}
+		case efBcastProposal, efBcastPrevote, efBcastPrecommit:
+			sent := true
+			if inc.cancelled {
+				sent = t.Draw("cancelled_broadcast_sent", 2) == 1
+			}
+			if sent {
+				x.after(r)
+				if inc.cancelled {
+					c.Probe("cancelled_broadcast_sent")
+				}
+			}
+		case efCommit:
+			switch {
+			case first && x.stopKind == stopListenerFailure:
+				v.fail = true
+				x.failedCommit[r.h] = true
+			case inc.cancelled:
+				v.fail = true
+				if t.Draw("cancelled_commit_persisted", 2) == 1 {
+					// the block had been handed over and was persisted although the listener gave up waiting
+					x.after(r)
+					c.Probe("cancelled_commit_persisted")
+				} else {
+					x.failedCommit[r.h] = true
+				}
+			default:
+				x.after(r)
+			}
+		}
+		x.inhand = nil
+		r.release <- v
+		r, first = nil, false
+	}
+	synctest.Wait()
+	x.disk.Disarm()
+	if inc.ioNoFire {
+		// nothing for the fault to hit: the process was killed right after the flush instead
+		x.stopKind = stopKill
+		c.Probe("io_fault_had_nothing_to_hit")
+		return
+	}
+	if x.stopKind == stopWALIOError {
+		c.Probe("flush_io_error_stops_driver")
+	}
+	// Run returned in a live process: what the validator appended is on the disk it restarts from, unless the
+	// disk had a fault in this stop and the store's Close reported an error as well
+	x.mustHoldLog = !(x.stopKind == stopWALIOError && inc.closed && inc.closeErr != nil)
+	if !inc.closed {
+		c.Probe("run_returned_without_close")
+	}
+	if inc.closed && inc.closeErr == nil && x.dirty > 0 {
+		c.Probe("close_with_buffered_records")
+	}
+	if len(x.failedCommit) > 0 {
+		c.Probe("stop_with_incomplete_commit")
+	}
+}
+
+// forceExit gets a driver that does not return out of the way (the listener channel is closed: listen returns).
+func (x *execution) forceExit() {
+	inc := x.inc
+	inc.dead = true
+	inc.cancel()
+	closedCh := false
+	for i := 0; i < 200; i++ {
+		synctest.Wait()
+		select {
+		case <-inc.done:
+			x.disk.Quiet = true
+			_ = inc.real.Close()
+			x.inc = nil
+			return
+		default:
+		}
+		if r := x.takeParked(); r != nil {
+			r.release <- verdict{dead: true}
+			continue
+		}
+		if !closedCh {
+			close(inc.propCh)
+			closedCh = true
+			continue
+		}
+		break
+	}
+	x.inc = nil
+	x.c.Broken("a driver that ignores its stop request cannot be ended by closing its listener channel either")
 }
 
 // mixImage: per directory entry a tape-chosen outcome between durable and written state.
